@@ -1059,7 +1059,7 @@ class _Batch:
     MAXN = 400
     suffix = ''
 
-    def __init__(self, env, valuations, workdir, timeout=120):
+    def __init__(self, env, valuations, workdir, timeout=300):
         self.env, self.vals, self.wd = env, valuations, Path(workdir)
         self.wd.mkdir(parents=True, exist_ok=True)
         self.timeout = timeout
